@@ -75,7 +75,7 @@ fn worker(args: &[String]) {
     if let Err(msg) = r {
         // a panic that escaped the monitors is a harness error, never a violation
         if let J::Obj(v) = &mut j {
-            v.push(("harness_error".to_string(), J::s(format!("worker panic: {}", msg))));
+            v.push(("harness_error".to_string(), J::s(format!("worker panic: {} at {}", msg, last_panic_loc()))));
         }
     }
     std::fs::write(&out, j.dump()).expect("write report");
@@ -146,6 +146,7 @@ fn run(args: &[String]) -> i32 {
     });
     let t0 = Instant::now();
     let vd = verif_dir();
+    let _ = std::fs::remove_dir_all(format!("{}/replays/{}", vd, prop));
     let run_dir = format!("{}/runs/{}", vd, prop);
     let _ = std::fs::remove_dir_all(&run_dir);
     std::fs::create_dir_all(&run_dir).unwrap();
